@@ -410,3 +410,27 @@ Example nominal_chain :
    ONone] /\
   vfinal [] [AddTc h; rp 1 None; rp 3 None; rp 5 (Some 1); rp 7 None; RemoveCompleted] = [].
 Proof. vm_compute. split; reflexivity. Qed.
+
+(* C10-style totality: a report that carries a step id when its subservice needs one makes
+   add_tm return, or raise the documented ValueError (subservice outside 1..8); nothing else *)
+Theorem add_tm_errors_documented d r e :
+  (rep_sub r = 5 \/ rep_sub r = 6 -> rep_step r <> None) ->
+  snd (add_tm d r) = Err e -> e = EValue /\ ~ (1 <= rep_sub r <= 8) /\ fst (add_tm d r) = d.
+Proof.
+  intros Hs. unfold add_tm. destruct (lookup _ d) as [s|]; cbn [snd]; [|discriminate].
+  destruct ((rep_sub r <=? 0) || (rep_sub r >? 8)) eqn:G; cbn [fst snd].
+  - intros H. inversion H. repeat split; try reflexivity. lia.
+  - destruct (check_subservice_table r s ltac:(lia) Hs) as (s' & c & C & _). rewrite C. cbn [snd]. discriminate.
+Qed.
+
+(* Observation (not a theorem of the property): the flag is evaluated only at the report that
+   terminates the sequence, so it depends on the arrival order: the same three reports
+   (acceptance, start, completion success) leave the same fields but a different flag. *)
+Example all_recvd_depends_on_order :
+  let h := {| ver := 0; ptype := 1; shf := 1; apid := 5; sflags := 3; scount := 7; dlen := 0 |} in
+  let q := reqid_from_sp_header h in
+  let rp sub := AddTm {| rep_id := q; rep_sub := sub; rep_step := None |} in
+  map (fun e => recvd (snd e)) (vfinal [] [AddTc h; rp 1; rp 3; rp 7]) = [1] /\
+  map (fun e => recvd (snd e)) (vfinal [] [AddTc h; rp 1; rp 7; rp 3]) = [0] /\
+  map (fun e => (acc (snd e), sta (snd e), comp (snd e))) (vfinal [] [AddTc h; rp 1; rp 7; rp 3]) = [(1, 1, 1)].
+Proof. vm_compute. repeat split. Qed.
